@@ -714,14 +714,13 @@ theorem matrix_runs (n : String) (h w : Nat) (cells : List (List Int)) (s : S)
     exact ⟨this.mode, this.dur, this.time, this.run⟩
   have hd1 : SameDir s.vm s1.vm := sameDir_of_lights rfl
   obtain ⟨s2, hx2, ha2, hn2, hm2⟩ := cells_run h w cells 0 s1 [] hr1 rfl hin (by omega)
-  let s3 : S := s2.setReg .operand (.operand .matrixLight)
-  have hr3 : Ready s3.vm := ha2.ready.setReg _ _ (by decide) (by decide) (by decide)
+  let s3 : S := (s2.setReg .name (.str n)).setReg .operand (.operand .matrixLight)
+  have hr3 : Ready s3.vm :=
+    (ha2.ready.setReg .name (.str n) (by decide) (by decide) (by decide)).setReg _ _ (by decide)
+      (by decide) (by decide)
   have hd3 : SameDir s.vm s3.vm := (hd1.trans ha2.dir).trans (sameDir_of_lights rfl)
   obtain ⟨l3, hl3, hk3⟩ := HasKind.of_sameDir hd3 ⟨l, hl, hkind⟩
-  have hname3 : s3.vm.regs .name = .str n := by
-    have : s3.vm.regs .name = s2.vm.regs .name := by simp [s3, S.setReg, State.setReg]
-    rw [this, hn2]
-    simp [s1, State.setReg]
+  have hname3 : s3.vm.regs .name = .str n := by simp [s3, S.setReg, State.setReg]
   have hcells : ∀ r c, r < h → c < w →
       C15.cellWire s3.vm (Matrix.cell ⟨h, w, (cells.zipIdx 0).map (cellStage w)⟩ r c) =
         some (cells.getD (r * w + c) []) := by
